@@ -331,3 +331,15 @@ def rule_blocking(ctx, facts, inv):
         stuck = [b for b in cyc_blocks if b not in deq and b in fn.reach([d for d in fn.succs(b)], avoid_blocks=deq)]
         ctx.check(not stuck, "R5", fn.path, fn.span, "every loop iteration of %s dequeues one parked command (the loop cannot spin)" % name,
                   "cycle blocks %s, dequeue blocks %s" % (cyc_blocks, sorted(deq)), "cycle avoiding every dequeue through %s" % stuck, extra="loop-" + name)
+        # a failed ring push ends the replay: retrying on a full ring would busy-wait for the collector
+        retry = []
+        for pb in spsc.ring_pushes(fn):
+            for sb in spsc.result_switch(fn, pb):
+                for a, d, _ in fn.variant_edges(sb, ["Err"]):
+                    r = fn.reach([(a, d)])
+                    if r & deq or pb in r:
+                        retry.append((fn.loc(pb), sorted(r & deq)))
+        ctx.check(not retry, "R5", fn.path, fn.span,
+                  "%s never retries after the ring reported Full (it returns; the parked commands wait for a later call)" % name, "",
+                  "after Err(Full) the loop dequeues/pushes again %s: with a full ring the call spins until the collector drains it"
+                  % retry, extra="retry-" + name)
